@@ -14,7 +14,7 @@
    After D47: BlockDecoder::push discards a symbol longer than E for every scheme: delivery needs payloads of at most E
    bytes ([sized]; Reed-Solomon: premise rs_rep_sized on the sender's repair symbols, RaptorQ / Raptor: fq_sized_pkt);
    safety needs nothing new. *)
-From FluteV Require Import Model.Partition Spec.C07Spec Proofs.PartitionProofs Model.ObjRecv
+From FluteV Require Import Proofs.D48Step Model.Partition Spec.C07Spec Proofs.PartitionProofs Model.ObjRecv
   Spec.RecvSpec Spec.SessionSpec Proofs.SessionProofs Proofs.C02Full.
 From Coq Require Import Lia FinFun.
 Open Scope N_scope.
@@ -1090,7 +1090,8 @@ Section RSDelivery.
     unfold init_partition at 1. unfold nb_block at 1. prj.
     change (0 <? 0 + N.of_nat (length (@nil bdec))) with false. cbv iota beta. fold b e. rewrite Hpart. cbv iota beta.
     unfold init_writer. prj. change (ncalls ctx0 toi) with 0%nat. rewrite Hbld. cbv iota beta zeta.
-    rewrite <- Hw, Hopen. cbn [negb]. destruct (N.eqb_spec L 0) as [G|_]; [lia|]. prj.
+    rewrite <- Hw, Hopen. cbn [negb]. destruct (N.eqb_spec L 0) as [G|HL0]; [lia|]. prj.
+    try (d48_skip HL0).
     match goal with |- context [push_from_cache E ?x ?y] => set (o3 := x); set (c3 := y) end.
     pose proof (PF n_pos) as Hn.
     set (m := N.to_nat (N.min n 2048)) in *.
